@@ -500,15 +500,20 @@ func c04WellKnownOptions(c *core.Ctx) {
 		var cookie [32]byte
 		var got *lease_set2.LeaseSet2
 		var derr error
-		panicked, _, _ := c.Call("encrypted_leaseset.EncryptedLeaseSet.DecryptInnerData", plain, func() { got, derr = els.DecryptInnerData(cookie[:], x25519.PrivateKey(priv)) })
+		panicked, pv, stack := c.Call("encrypted_leaseset.EncryptedLeaseSet.DecryptInnerData", plain, func() { got, derr = els.DecryptInnerData(cookie[:], x25519.PrivateKey(priv)) })
 		if panicked {
+			reportPanic(c, "C04", "encrypted_leaseset.EncryptedLeaseSet.DecryptInnerData", gen.Shape{"plaintext": classHead(class)}, plain, pv, stack)
 			return
 		}
 		c.OpResult("encrypted_leaseset.EncryptedLeaseSet.DecryptInnerData", derr == nil)
 		c.Nontrivial([]byte("decrypt-inner"), plain)
 		c.Bucket("decrypt-inner/" + classHead(class) + map[bool]string{true: "/value", false: "/error"}[derr == nil])
 		if derr == nil && got != nil {
-			c.Call("encrypted_leaseset.EncryptedLeaseSet.DecryptInnerData/methods", plain, func() { lib.Observe(got, lib.ObserveOpts{Depth: 1}) })
+			for _, o := range lib.Observe(got, lib.ObserveOpts{Depth: 1, WithArgs: true}) {
+				if o.Panicked && strings.HasPrefix(core.PanicCulprit(o.Stack), "github.com/go-i2p/") {
+					c.ViolateP("C04", "encrypted_leaseset.EncryptedLeaseSet.DecryptInnerData->"+o.Name, "method-panic", gen.Shape{"plaintext": classHead(class), "method": o.Name, "panic_at": panicSite(o.Stack)}, plain, o.Panic, o.Stack)
+				}
+			}
 		}
 	})
 
